@@ -50,7 +50,7 @@ class Ctx:
         r["rec"] = rec
         return r
 
-    def lemma(self, name, cinit=None, timeout=600):
+    def lemma(self, name, cinit=None, timeout=900, init_bad="Init"):
         """an unbounded-integer lemma of the specification (spec/lemmas/<name>.tla) discharged by Apalache: Inv must hold,
         the negative control InvBad must be refuted.  A failure is a failure of the specification, not of the code."""
         import subprocess
@@ -59,8 +59,8 @@ class Ctx:
         src = os.path.join(tlc.SPEC_DIR, "lemmas", name + ".tla")
         res = {}
         t0 = time.time()
-        for inv, want in (("Inv", "OK"), ("InvBad", "ERROR")):
-            cmd = ["apalache-mc", "check", "--init=Init", "--inv=" + inv, "--length=0", "--out-dir=" + d] + (["--cinit=" + cinit] if cinit else []) + [src]
+        for inv, want, init in (("Inv", "OK", "Init"), ("InvBad", "ERROR", init_bad)):
+            cmd = ["apalache-mc", "check", "--init=" + init, "--inv=" + inv, "--length=0", "--out-dir=" + d] + (["--cinit=" + cinit] if cinit else []) + [src]
             try:
                 r = subprocess.run(cmd, cwd=d, stdout=subprocess.PIPE, stderr=subprocess.STDOUT, text=True, timeout=timeout)
                 out = r.stdout
